@@ -149,12 +149,13 @@ func _yieldBareMarshalMachinePtr(row *marshalSlabRow, atl atlas.Atlas, rt reflec
 		return mach
 	case reflect.Interface:
 		return &row.marshalMachineWildcard
-	case reflect.Func:
-		panic(fmt.Errorf("functions cannot be marshalled!"))
 	case reflect.Ptr:
 		panic(fmt.Errorf("unreachable: ptrs must already be resolved"))
 	default:
-		panic(fmt.Errorf("excursion %s", rt.Kind()))
+		// funcs, channels, complex numbers, unsafe pointers: not representable.
+		mach := &row.errThunkMarshalMachine
+		mach.err = fmt.Errorf("cannot marshal values of kind %s (type %v)", rt.Kind(), rt)
+		return mach
 	}
 }
 
